@@ -316,8 +316,12 @@ def replay(ctx, body):
     if 'ops' in inp:
         r = run_masks([inp])[0]
     else:
-        res, _ = run_docs(bases, [inp])
+        res, binfo = run_docs(bases, [inp])
         r = res[0]
+        bi = binfo.get(inp.get('base'), {})
+        if bi.get('esc') or bi.get('errs'):
+            r.setdefault('fails', []).append({'signature': 'C08:base-does-not-load:%s' % inp.get('base'), 'clause': 'base',
+                                              'what': 'the undamaged base document does not load cleanly: %s %s' % (bi.get('esc'), bi.get('errs'))})
     known = {k['signature'] for k in core.load_known() if k.get('property') == 'C08'}
     fails = [f for f in r.get('fails', []) if f['signature'] not in known]
     print(json.dumps(r.get('fails', []), indent=1)[:3000])
